@@ -623,7 +623,8 @@ def _some_str(value):
         return str(value)
     except Exception:
         pass
-    return '<unprintable %s object>' % type(value).__name__
+    # same placeholder as the traceback module
+    return '<exception str() failed>'
 
 
 def _format_final_exc_line(etype, value):
